@@ -8,4 +8,11 @@ func init() {
 		NotDecided: "all subsets of the flag types beyond the structure of the set printers; acceptance of each keyword by LLVM itself.",
 		Rules: []RuleUse{{Rule: "ENUM-TAB"}, {Rule: "ENUM-LEX"}, {Rule: "ENUM-FLAGS"}, {Rule: "ENUM-USE"}},
 	})
+	addProperty(&Property{
+		ID:    "C19",
+		Title: "WriteTo honours the io.WriterTo contract, also when the writer fails",
+		Decided: "all module output passes the counting, error-latching wrapper: the caller's writer reaches only the wrapper (W-1), each wrapper method suppresses writes after an error, performs one fmt.Fprint* and records its count and error (W-2), WriteTo returns the wrapper's totals on every return (W-3), nobody else touches the wrapper's state (W-4), String() is WriteTo on a builder (W-5).",
+		NotDecided: "that fmt.Fprint* issues a single Write and returns its (n, err) faithfully (trusted standard-library behaviour); byte-level equality of delivered prefixes for every failure offset.",
+		Rules: []RuleUse{{Rule: "W-1"}, {Rule: "W-2"}, {Rule: "W-3"}, {Rule: "W-4"}, {Rule: "W-5"}},
+	})
 }
